@@ -23,7 +23,8 @@ from harness.core import SPECS, Machinery
 
 LEVEL = "model_checking"
 RULE = ("schedules = all orders of the driver commands go(p) / resume(p) (singletons and ordered pairs per "
-        "quiescence point) for every program of the instance (2-3 processes, <= 2 operations each over set / "
+        "quiescence point) for every program of the instance (2 processes, <= 2 operations each; 3 processes: open edit "
+        "block + queued whole-state replacement + queued second edit, in full; thorough adds sampled 3-process programs; over set / "
         "set_state / parent set_state / clear / edit_state{read; await; write}, at least one edit_state), "
         "explored exhaustively on the real stores, plus schedules projected from TLC's state graph; "
         "non-trivial = some operation was issued or completed while another task was inside an edit_state "
@@ -122,6 +123,8 @@ def run(chk):
                 progs2[k] = progs2.get(k, []) + [p for p in v if json.dumps(p, sort_keys=True) not in known]
         res_t = _model(chk, "three", workers=8, coverage=False)
         progs3 = _programs(res_t)
+    # three processes, every tier: edit block / whole-state replacement / second edit block, all explored in full
+    progs3q = _programs(_model(chk, "three_q", coverage=False))
     res_w = fut_w.result()
     chk.add(model_ascoded_counterexample=bool(res_w.violated == "Inv_C20"))
     if res_w.violated != "Inv_C20":
@@ -157,6 +160,8 @@ def run(chk):
                         continue
                     mb = 1
                 traces[2] += drv.explore(be, kind, pr, e, max_batch=mb)
+            for pr in progs3q.get(kind, []):
+                traces[3] += drv.explore(be, kind, pr, e, max_batch=1)
             for i, pr in enumerate(progs3.get(kind, [])):
                 if i % (15 if be == "sqlite" else 5):
                     continue
